@@ -232,7 +232,11 @@ def select(cases, n, seed):
 def run(ctx: Ctx):
     thorough = ctx.tier == "thorough"
     cases = pool.build_pool(ctx, scale=1)
-    chosen = select(cases, 2400 if thorough else 240, ctx.seed)
+    # two-fault documents are all taken (the order of the error list is what they are for); the rest is
+    # a balanced seeded selection
+    double = [c for c in cases if c["origin"] == "validator2"]
+    chosen = double + select([c for c in cases if c["origin"] != "validator2"],
+                             2400 if thorough else 200, ctx.seed)
     jobs = [("doc", c, ver) for c in chosen for ver in ("1.0", "1.1")]
     jobs += [("cli", k, ver) for k in (0, 1, 2, 255, 256, 257, 512) for ver in ("1.0", "1.1")]
     results = ctx.pmap(work, jobs)
